@@ -190,44 +190,61 @@ def axiom_audit_one(prop_id):
     return thms, bad, out
 
 # ------------------------------------------------------------------ running cases
-def run_stream(cmd, lines, flush=False):
-    """feed lines to a process; handle aborts by bisecting at the dying case.
-    returns list of output lines (same length), with 'abort <sig>' for cases that killed the process"""
+def run_stream(cmd, lines, flush=False, timeout=None):
+    """feed lines to a process; handle aborts AND hangs by locating the dying case.
+    returns list of output lines (same length), with 'abort <why>' for cases that killed / hung the process"""
     results = []
     pos = 0
     n = len(lines)
     data_all = lines
+    timeout = timeout or int(os.environ.get("VERIF_RUN_TIMEOUT", "900"))
+    hangs = 0
     while pos < n:
+        if hangs >= 2:
+            results.extend(["abort skipped-after-two-timeouts"] * (n - pos))
+            break
         chunk = data_all[pos:]
-        p = subprocess.run(cmd, input=("\n".join(chunk) + "\n").encode("latin-1"), stdout=subprocess.PIPE, stderr=subprocess.PIPE)
-        out = p.stdout.decode("latin-1").split("\n")
-        if out and out[-1] == "":
-            out.pop()
-        if p.returncode == 0 and len(out) == len(chunk):
-            results.extend(out)
-            pos = n
-        else:
-            # died: rerun flushed to find the exact case
-            p2 = subprocess.run(cmd + ["--flush"], input=("\n".join(chunk) + "\n").encode("latin-1"), stdout=subprocess.PIPE, stderr=subprocess.PIPE)
-            out2 = p2.stdout.decode("latin-1").split("\n")
-            if out2 and out2[-1] == "":
-                out2.pop()
-            if p2.returncode == 0 and len(out2) == len(chunk):
-                results.extend(out2)
+        inp = ("\n".join(chunk) + "\n").encode("latin-1")
+        try:
+            p = subprocess.run(cmd, input=inp, stdout=subprocess.PIPE, stderr=subprocess.PIPE, timeout=timeout)
+            out = p.stdout.decode("latin-1").split("\n")
+            if out and out[-1] == "":
+                out.pop()
+            if p.returncode == 0 and len(out) == len(chunk):
+                results.extend(out)
                 pos = n
                 continue
-            k = len(out2)
-            results.extend(out2[:k])
-            err = p2.stderr.decode("latin-1", "replace")
-            kind = "abort rc=%d" % p2.returncode
-            if "unsafe precondition" in err:
-                kind += " unsafe-precondition"
-            elif "overflow" in err and "stack" in err:
-                kind += " stack-overflow"
-            elif "memory allocation" in err:
-                kind += " alloc-failure"
-            results.append(kind)
-            pos += k + 1
+        except subprocess.TimeoutExpired:
+            pass
+        # died or hung: rerun flushed to find the exact case
+        hung = False
+        try:
+            p2 = subprocess.run(cmd + ["--flush"], input=inp, stdout=subprocess.PIPE, stderr=subprocess.PIPE, timeout=timeout)
+            raw, err, rc = p2.stdout, p2.stderr.decode("latin-1", "replace"), p2.returncode
+        except subprocess.TimeoutExpired as e:
+            raw, err, rc, hung = (e.stdout or b""), "", -1, True
+        out2 = raw.decode("latin-1").split("\n")
+        if out2 and out2[-1] == "":
+            out2.pop()
+        elif out2 and hung:
+            out2.pop()          # incomplete last line
+        if rc == 0 and len(out2) == len(chunk):
+            results.extend(out2)
+            pos = n
+            continue
+        k = min(len(out2), len(chunk) - 1)
+        results.extend(out2[:k])
+        kind = "abort timeout (no answer within %ds)" % timeout if hung else "abort rc=%d" % rc
+        if "unsafe precondition" in err:
+            kind += " unsafe-precondition"
+        elif "overflow" in err and "stack" in err:
+            kind += " stack-overflow"
+        elif "memory allocation" in err:
+            kind += " alloc-failure"
+        results.append(kind)
+        if hung:
+            hangs += 1
+        pos += k + 1
     return results
 
 def run_impl(cfg, profile, lines):
